@@ -26,7 +26,8 @@ type HReq struct {
 	DsId   string `json:"ds,omitempty"`   // good | unknown | empty | short | long
 	ItemId string `json:"id,omitempty"`   // good | empty | short | long
 	Vec    string `json:"vec,omitempty"`  // good | empty | short | long | nan | inf | huge
-	Meta   string `json:"meta,omitempty"` // none | small | longkey | longval | many
+	Meta   string `json:"meta,omitempty"` // none | small | longkey | longval | many | widekey | wideval | edgekey
+	Slot   int    `json:"slot,omitempty"` // which of a few shared item ids the request is about (requests in any ORDER on the same item)
 	K      uint32 `json:"k,omitempty"`
 	Items  int    `json:"items,omitempty"`
 	Dup    bool   `json:"dup,omitempty"`
@@ -62,7 +63,8 @@ func genC12(r *simrt.Rand, tier string) json.RawMessage {
 		if r.Bool(0.25) {
 			h.Burst = r.Range(2, 8)
 		}
-		h.ItemId = pick("good", "good", "empty", "short", "long")
+		h.ItemId = pick("good", "good", "good", "empty", "short", "long")
+		h.Slot = r.Intn(3)
 		h.Vec = pick("good", "good", "empty", "short", "long", "nan", "inf", "collinear", "collinear")
 		h.Meta = pick("none", "small", "longkey", "longval", "many", "widekey", "wideval", "edgekey")
 		h.K = []uint32{0, 1, 5, 1 << 20, math.MaxUint32}[r.Intn(5)]
@@ -167,7 +169,7 @@ func (r *W3Run) hostile(h HReq, good *dsInfo) (panicked string, err error) {
 	if v := r.ds[1]; h.DsId == "victim" && v != nil && v.ackedCreate {
 		dsid = v.id.Bytes() // a second healthy dataset that hostile requests may delete
 	}
-	item := mkId(h.ItemId, idOf(8000+h.Seq).Bytes())
+	item := mkId(h.ItemId, idOf(8000+h.Slot).Bytes())
 	var partId []byte
 	if len(good.meta.GetPartitions()) > 0 {
 		partId = good.meta.GetPartitions()[h.Seq%len(good.meta.GetPartitions())].GetId()
@@ -184,6 +186,9 @@ func (r *W3Run) hostile(h HReq, good *dsInfo) (panicked string, err error) {
 		var out []*pb.BatchItem
 		for i := 0; i < h.Items; i++ {
 			id := idOf(8100 + h.Seq*200 + i).Bytes()
+			if i == 0 {
+				id = idOf(8000 + h.Slot).Bytes() // the shared item: single and batch requests meet on it
+			}
 			if h.Dup && i > 0 {
 				id = idOf(8100 + h.Seq*200).Bytes()
 			}
@@ -384,6 +389,19 @@ func execC12(raw json.RawMessage, wantLog bool) (out Outcome) {
 				return n.svcData.Insert(ctx, &pb.InsertRequest{DatasetId: good.id.Bytes(), Id: idOf(7900 + jj).Bytes(), Value: b})
 			})
 			s.runUntil(func() bool { return bo.done }, 12*time.Second)
+		}
+		// the shared items the requests meet on: slot 0 exists with metadata, slot 1 exists
+		// without, slot 2 does not exist (yet)
+		for j := 0; j < 2; j++ {
+			jj := j
+			so := s.client(s.nodes[0], "shared item", 8*time.Second, func(ctx context.Context, n *simNode) (interface{}, error) {
+				var md map[string]string
+				if jj == 0 {
+					md = map[string]string{"color": "red", "a": "b"}
+				}
+				return n.svcData.Insert(ctx, &pb.InsertRequest{DatasetId: good.id.Bytes(), Id: idOf(8000 + jj).Bytes(), Value: vecOf(8000+jj, 1, good.dim), Metadata: md})
+			})
+			s.runUntil(func() bool { return so.done }, 12*time.Second)
 		}
 		// a second healthy dataset, which hostile requests are allowed to delete
 		r.createDataset(1, s.nodes[0], 2, 1, 3, 0, true)
